@@ -1,0 +1,21 @@
+//go:build !verif
+
+package server
+
+import (
+	"fmt"
+
+	"github.com/tidwall/resp"
+)
+
+// Verification hooks (build tag "verif"). With the tag off they are empty.
+
+func verifPoint(name string)       {}
+func (s *Server) verifLogged()     {}
+func (s *Server) verifFlushed()    {}
+func (s *Server) verifBeforeSend() {}
+func (s *Server) verifAfterClear() {}
+
+func (s *Server) cmdVerif(msg *Message) (resp.Value, error) {
+	return NOMessage, fmt.Errorf("unknown command '%s'", msg.Args[0])
+}
